@@ -33,6 +33,36 @@ func ruleTokenErr(c *eng.Ctx) {
 		c.Undec(R, "core.(*Parser).nextToken", token.NoPos, "anchor not found")
 		return
 	}
+	// every call of nextToken moves on: no return is reached without the shift currentToken = peekToken (a return in
+	// front of it, for a latched error say, leaves the callers, which ignore the result, on the same token for ever)
+	{
+		var shifts []*ssa.BasicBlock
+		eng.Instrs(fn, false, func(in ssa.Instruction) {
+			if st, ok := in.(*ssa.Store); ok {
+				if fr, ok := eng.AsField(st.Addr); ok && fr.Field == "currentToken" {
+					shifts = append(shifts, st.Block())
+				}
+			}
+		})
+		if len(shifts) > 0 {
+			isShift := func(b *ssa.BasicBlock) bool {
+				for _, sb := range shifts {
+					if sb == b {
+						return true
+					}
+				}
+				return false
+			}
+			reach := eng.ReachableBlocks([]*ssa.BasicBlock{fn.Blocks[0]}, isShift)
+			var early token.Pos
+			for _, r := range eng.Returns(fn) {
+				if reach[r.Block()] && !isShift(r.Block()) {
+					early = r.Pos()
+				}
+			}
+			c.Check(early == token.NoPos, R, "core.(*Parser).nextToken#always-shifts", fn.Pos(), "every return comes after the shift of the lookahead", "nextToken can return (at "+c.P.Pos(early)+") without shifting the lookahead into the current token: the parse loops ignore its result and test the current token, which then never changes - '<< /A > >>' spins for ever")
+		}
+	}
 	eofVal := int64(-1)
 	if fn.Pkg != nil {
 		if m, ok := fn.Pkg.Members["TokenEOF"].(*ssa.NamedConst); ok {
@@ -68,13 +98,18 @@ func ruleTokenErr(c *eng.Ctx) {
 			if !ok || errSet[ph] || !eng.IsErrorType(ph.Type()) {
 				return
 			}
-			all := true
+			all, some := true, false
 			for _, e := range ph.Edges {
-				if !errSet[e] {
+				if eng.IsNilConst(e) {
+					continue // the zero value of a named result
+				}
+				if errSet[e] {
+					some = true
+				} else {
 					all = false
 				}
 			}
-			if all {
+			if all && some {
 				errSet[ph] = true
 				changed = true
 			}
@@ -154,20 +189,29 @@ func ruleTokenErr(c *eng.Ctx) {
 		fromErr[b] = true
 	}
 	okEOF := len(covering) > 0 && len(errStarts) > 0
-	for _, r := range eng.Returns(fn) {
-		if !fromErr[r.Block()] {
-			continue
-		}
-		found := false
+	// every way from a block that is only reached with a lexer error to a return passes a block that makes the
+	// lookahead EOF (also with a single exit, where no such block dominates the return)
+	isCover := func(b *ssa.BasicBlock) bool {
 		for _, sb := range covering {
-			if sb == r.Block() || sb.Dominates(r.Block()) {
-				found = true
+			if sb == b {
+				return true
 			}
 		}
-		if !found {
+		return false
+	}
+	var uncovered []*ssa.BasicBlock
+	for _, b := range errStarts {
+		if !isCover(b) {
+			uncovered = append(uncovered, b)
+		}
+	}
+	bypass := eng.ReachableBlocks(uncovered, isCover)
+	for _, r := range eng.Returns(fn) {
+		if bypass[r.Block()] {
 			okEOF = false
 		}
 	}
+	_ = fromErr
 	if okEOF {
 		c.Ok(R, "core.(*Parser).nextToken#error-ends-stream", fn.Pos(), "a lexer error turns the lookahead into EOF")
 		return
@@ -820,6 +864,26 @@ func hasSetGuard(fn *ssa.Function, what string, scc ...*ssa.Function) bool {
 				ins = true
 				inserts = append(inserts, x)
 			}
+		case *ssa.Call:
+			// the set kept in a type of its own (a sorted slice) with membership and insertion methods of the package
+			if g := eng.StaticCallee(x); g != nil && g.Pkg == fn.Pkg && g.Signature.Recv() != nil && len(x.Call.Args) >= 2 {
+				recv := x.Call.Args[0]
+				onSet := isSet(recv)
+				if fa, ok := recv.(*ssa.FieldAddr); ok {
+					if fr, ok := eng.AsField(fa); ok && strings.Contains(fr.Field, what) {
+						onSet = true
+					}
+				}
+				if onSet {
+					switch g.Name() {
+					case "has", "contains", "Has", "Contains":
+						test = true
+					case "add", "insert", "Add", "Insert":
+						ins = true
+						inserts = append(inserts, x)
+					}
+				}
+			}
 		}
 	})
 	if !(test && ins) {
@@ -849,7 +913,12 @@ func hasSetGuard(fn *ssa.Function, what string, scc ...*ssa.Function) bool {
 	typed := len(inserts) > 0
 	for _, m := range inserts {
 		fromAssert := false
-		for w := range eng.Slice(m.(*ssa.MapUpdate).Key, nil) {
+		mu, isMU := m.(*ssa.MapUpdate)
+		if !isMU {
+			typed = false
+			continue
+		}
+		for w := range eng.Slice(mu.Key, nil) {
 			if ta, ok := w.(*ssa.TypeAssert); ok && ta.CommaOk {
 				fromAssert = true
 			}
